@@ -15,14 +15,14 @@ MANIFEST = {
             "abstract map location->entry) and every order of the three pre-merge triggers fix_uid_perms, fix_gid_perms, "
             "fix_set_bits (plus detect_world_writable with fix_perms) that afterwards no non-symlink entry is both set-id and "
             "world-writable, no entry is owned by the build uid/gid, and kind, location, target, data and the key set are unchanged.",
-    "note": "Trusted: contentsSet.update/iterlinks and fsBase.change_attributes follow their contracts (map update keyed by location, "
-            "record update; C22 covers contentsSet); modes are 32-bit vectors (0 <= mode < 2**31); symlink modes carry no set-id "
+    "note": "Trusted: contentsSet.update/iterlinks follow their contracts (map update keyed by location; C22 covers contentsSet); fsBase.change_attributes is under its own contract (C23.change_attributes, every entry class, attribute values >= 0); "
+            "modes are 32-bit vectors (0 <= mode < 2**31); symlink modes carry no set-id "
             "bits (fs type invariant); the observer is None (reporting loops are not under contract); pyvc encoder.",
 }
 ASSUMPTIONS = [
     "file modes are non-negative ints below 2**31 (bit operations modelled on 32-bit vectors)",
     "contentsSet.update(iterable) stores each entry under its location; iterlinks(True) yields every non-symlink entry; "
-    "fsBase.change_attributes(**kw) returns a copy differing only in kw",
+    "fsBase.change_attributes(**kw) returns a copy differing only in kw (proved separately as C23.change_attributes for mode / uid / gid on every entry class)",
     "engine.observer is None in the verified runs (the reporter.warn loops have no effect on the contents set)",
     "the replacement uid/gid differs from the build uid/gid",
 ]
@@ -81,6 +81,63 @@ def t_premerge(ex):
         ex.oblige(f"{P}.ensures.other_mode_bits_kept", SBool((m1 & ~0o6002) == (field(e0, "mode") & ~0o6002)))
 
 
+# --------------------------------- change_attributes: the callee contract the triggers rely on ----
+FS = "src/pkgcore/fs/fs.py"
+CLASSES = ("fsFile", "fsDir", "fsLink", "fsDev", "fsFifo")
+
+
+def t_change_attributes(ex):
+    """entry.change_attributes(mode= / uid= / gid=) on an entry of every kind with arbitrary attribute values: raises nothing, returns an entry of
+    the same class whose named attribute is the new value and whose every other attribute is the old one (the contract t_premerge assumes)"""
+    from pkgcore.fs import fs
+    cls_name = CLASSES[ex.choose(len(CLASSES))]
+    which = ("mode", "uid", "gid")[ex.choose(3)]
+    cls = getattr(fs, cls_name)
+    P = f"C23.change_attributes[{cls_name},{which}]"
+    it = Interp(ex, label=P)
+    fields = {"location": "/x/y"}
+    for n in ("mode", "uid", "gid", "mtime"):
+        fields[n] = KInt.fresh(n)
+        ex.assume(fields[n] >= 0)
+    if cls_name == "fsDev":
+        # type invariant of a device entry: numbers are >= 0 (0 is a valid major / minor: /dev/mem is 1:1, ram0 is 1:0, nbd0 is 43:0)
+        for n in ("major", "minor"):
+            fields[n] = KInt.fresh(n)
+            ex.assume(fields[n] >= 0)
+    if cls_name == "fsLink":
+        fields["target"] = "t"
+    if cls_name == "fsFile":
+        from pyvc.sym import KRef
+        fields["chksums"] = KRef("Chksums").fresh("chksums")
+        fields["data"] = KRef("DataSource").fresh("data")
+        if "dev" in getattr(cls, "__attrs__", ()):
+            fields["dev"], fields["inode"] = KInt.fresh("dev"), KInt.fresh("inode")
+    me = SObj(cls, dict(fields))
+    newv = KInt.fresh("new_" + which)
+    ex.assume(newv >= 0)
+    out = call(it, it.target(FS, "fsBase.change_attributes"), me, **{which: newv})
+    ex.oblige(f"{P}.raises.nothing", not out.raised, kind="exceptional-postcondition")
+    if out.raised:
+        return
+    r = out.value
+    ex.oblige(f"{P}.ensures.same_class", isinstance(r, SObj) and r.cls is cls)
+    if not isinstance(r, SObj):
+        return
+
+    def same(a, b):
+        if hasattr(a, "t") and hasattr(b, "t"):
+            return SBool(a.t == b.t)
+        if hasattr(a, "t") or hasattr(b, "t"):
+            at = a.t if hasattr(a, "t") else z3.IntVal(a)
+            bt = b.t if hasattr(b, "t") else z3.IntVal(b)
+            return SBool(at == bt)
+        return a == b or a is b
+    ex.oblige(f"{P}.ensures.named_attribute_is_the_new_value", same(r.fields.get(which), newv))
+    for n, v in fields.items():
+        if n != which:
+            ex.oblige(f"{P}.ensures.{n}_unchanged", n in r.fields and same(r.fields[n], v))
+
+
 # -------------------------------------------------------- bounded enumeration ----
 def _mk_entries():
     from pkgcore.fs import fs
@@ -99,6 +156,10 @@ def _mk_entries():
                     out.append(fs.fsSymlink(loc, target="t", **dict(kw, mode=mode & 0o1777)))
                 else:
                     out.append(fs.fsFifo(loc, **kw))
+    # device nodes, including major / minor 0 (1:0 is ram0, 43:0 nbd0)
+    for mode in (0o20644, 0o64757, 0o22777):
+        for (major, minor), (uid, gid) in zip(((0, 0), (1, 0), (0, 5), (8, 1)), ((0, 0), (250, 250), (250, 0), (0, 250))):
+            out.append(fs.fsDev(f"/dev/{mode:o}/{major}/{minor}", major=major, minor=minor, mode=mode, uid=uid, gid=gid, mtime=1))
     return out
 
 
@@ -118,9 +179,12 @@ def enum_premerge(seed):
             cases += 1
             cs = contentsSet(ents)
             before = {e.location: e for e in ents}
-            for i in order:
-                trig[i].trigger(engine, cs)
             bad = []
+            for i in order:
+                try:
+                    trig[i].trigger(engine, cs)
+                except Exception as e:   # the engine reports and skips a failing trigger: whatever it had not reached stays as it was
+                    bad.append(f"{TRIGGERS[i]} raised {type(e).__name__}: {e}")
             if {e.location for e in cs} != set(before):
                 bad.append("key set changed")
             for e in cs:
@@ -131,18 +195,21 @@ def enum_premerge(seed):
                     bad.append(f"{e.location}: mode {e.mode:o} is set-id and world-writable")
                 if e.uid == 250 or e.gid == 250:
                     bad.append(f"{e.location}: still owned by build uid/gid ({e.uid}/{e.gid})")
-                if type(e) is not type(b) or getattr(e, "target", None) != getattr(b, "target", None) or getattr(e, "data", None) is not getattr(b, "data", None):
-                    bad.append(f"{e.location}: type/target/data changed")
+                if type(e) is not type(b) or getattr(e, "target", None) != getattr(b, "target", None) or getattr(e, "data", None) is not getattr(b, "data", None) \
+                        or (getattr(e, "major", None), getattr(e, "minor", None)) != (getattr(b, "major", None), getattr(b, "minor", None)):
+                    bad.append(f"{e.location}: type/target/data/device numbers changed")
             if bad and len(fails) < 3:
                 fails.append({"model": {"entries": [repr(x) for x in ents], "order": [TRIGGERS[i] for i in order]},
                               "detail": f"order {[TRIGGERS[i] for i in order]} on {[repr(x) for x in ents]}: " + "; ".join(bad[:4])})
-    return {"name": "C23.pre_merge.bounded_enumeration", "bound": "sets of 1/2/5 entries drawn from 4 kinds x 8 modes x 4 owners, 6 trigger orders",
+    return {"name": "C23.pre_merge.bounded_enumeration", "bound": "sets of 1/2/5 entries drawn from 4 kinds x 8 modes x 4 owners plus 12 device nodes (major / minor 0 included), 6 trigger orders",
             "cases": cases, "failures": fails}
 
 
 def tasks():
     fns = [(FILE, f"{n}.trigger") for n in TRIGGERS + ("detect_world_writable",)]
-    return [Task("C23.pre_merge", t_premerge, fns, enumerate=enum_premerge)]
+    return [Task("C23.pre_merge", t_premerge, fns, enumerate=enum_premerge),
+            Task("C23.change_attributes", t_change_attributes, [(FS, "fsBase.change_attributes"), (FS, "fsBase.__init__"), (FS, "fsDev.__init__"), (FS, "fsFile.__init__"),
+                                                                (FS, "fsLink.__init__")])]
 
 
 def replay_premerge(model):
